@@ -77,22 +77,27 @@ PROPS = {
     ),
     'C01': dict(
         title='Lexing and parsing are total',
-        verus=['lexer', 'tables'], kani=['c01_'],
+        verus=['lexer', 'tables', 'parser_core', 'parser_stmts'], kani=['c01_'],
         technique=V + ' — PARTIAL: slicing preconditions (valid char-boundary slice = no out-of-bounds read in debug or '
                       'release) and u32 column arithmetic of the lexer primitives; every get_*_operator(..).unwrap() token '
-                      'list extracted from parser.rs call sites proved total. Not decided: match_loop / scan_delimited / '
-                      'tokenize_word and all parser combinators (closures capturing &mut self; Kani does not terminate)',
-        level_note='partial: lexer match_loop, scan_delimited, tokenize_word, scan_number, the whole parser and '
-                   'Display for ParseError are NOT under contract (listed in DESIGN.md §5 C01); assumed: find_next_word_end, '
-                   'substr, KEYWORDS lookup, std str functions',
+                      'list extracted from parser.rs call sites proved total; parser token primitives, statement dispatch and '
+                      'statement parsers over an abstract token stream: every consume()/unwrap()/unreachable_unchecked() site in them '
+                      'is an obligation, the block and program loops terminate (decreases: tokens left). Not decided: match_loop / '
+                      'scan_delimited / tokenize_word, the expression / identifier / poetic-literal parsers',
+        level_note='partial: lexer match_loop, scan_delimited, tokenize_word, the expression, identifier, function and poetic '
+                   'parsers and Display for ParseError are NOT under contract (DESIGN.md §5 C01); assumed: find_next_word_end, '
+                   'substr, KEYWORDS lookup, std str functions, the token stream model (CommentSkippingLexer::next/clone)',
     ),
     'C02': dict(
         title='Every spelling of a program parses to the same syntax tree',
-        verus=['tables'], kani=[],
-        technique=V + ' — PARTIAL (tables only): get_unary/binary/mutation_operator, get_rounding_direction, '
-                      'is_literal_word, Block::new against reference tables. The parser as a whole is not decided',
-        level_note='partial: only the token -> operator tables; KEYWORDS alias table, precedence ladder and the parser '
-                   'combinators are not under contract (DESIGN.md §5 C02)',
+        verus=['tables', 'parser_stmts', 'parser_core'], kani=[],
+        technique=V + ' — PARTIAL: get_unary/binary/mutation_operator, get_rounding_direction, is_literal_word, Block::new '
+                      'against reference tables; statement level of the grammar: the dispatch table (starting token -> statement '
+                      'kind) and each statement parser against the sequence of sub-parser calls, required and optional words and '
+                      'the assembled node (sub-parsers abstract), block structure (blank line / else / end closes a block). '
+                      'Expression precedence, lists, identifiers, aliases and comments are not decided',
+        level_note='partial: KEYWORDS alias table, precedence ladder, expression lists, identifier classes, comment skipping and '
+                   'statements starting with a word are not under contract (DESIGN.md §5 C02)',
     ),
     'C09': dict(
         title='Running any parseable program never crashes the interpreter',
@@ -125,6 +130,18 @@ PROPS = {
                       'multi-line literal, error tokens). Token tiling by match_loop / scan_delimited / tokenize_word is not decided',
         level_note='partial: see DESIGN.md §5 C12',
     ),
+    'C13': dict(
+        title='Syntax errors are rejected and attributed to the line they occur on',
+        verus=['parser_core', 'parser_stmts', 'lexer'], kani=[],
+        technique=V + ' — PARTIAL: over an abstract token stream (remaining tokens as a sequence): expect_token / expect_token_or_end / '
+                      'expect_any / expect_eol consume exactly what they accept and otherwise return the error located at the '
+                      'offending token (or the current line at end of input: new_parse_error); every statement in a block is followed '
+                      'by an end of statement; the program loop returns Ok only with no token left; an unknown statement start is an '
+                      'error at that token; every statement parser demands its required words and operands and returns the first '
+                      'error; error tokens of the lexer span exactly the bad word. Sub-parsers for expressions and names abstract',
+        level_note='partial: expression / identifier / poetic-literal / function parsers, Display for ParseError(Location) and the '
+                   'lexer line counter across match_loop are not under contract (DESIGN.md §5 C13)',
+    ),
     'C18': dict(
         title='Constant-assignment lint is exact and its suggested rewrite is equivalent',
         verus=['boring', 'folder'], kani=['c18_'],
@@ -143,5 +160,4 @@ NOT_APPLICABLE = {
            'reach of both verifiers (closures capturing &mut self; Kani does not terminate on 3 input bytes)',
     'C20': 'process-level behaviour (argv, files, stdout/stderr, exit status, clap): neither verifier models a process '
            'boundary; cli/ is glue over print!/eprintln!',
-    'C13': 'not yet built',
 }
